@@ -301,3 +301,316 @@ func (p *Pool) Put(x any) {
 		p.n++
 	}
 }
+
+// TryLock ...
+//
+//go:norace
+func (m *RWMutex) TryLock() bool {
+	if s := active; s != nil {
+		if s.aborting {
+			return true
+		}
+		s.point(&plainOp{"RWMutex.TryLock"})
+	}
+	if m.writer || m.readers > 0 {
+		return false
+	}
+	m.writer = true
+	raceAcquire(unsafe.Pointer(m))
+	raceAcquire(unsafe.Pointer(&m.rtok))
+	return true
+}
+
+// TryRLock ...
+//
+//go:norace
+func (m *RWMutex) TryRLock() bool {
+	if s := active; s != nil {
+		if s.aborting {
+			return true
+		}
+		s.point(&plainOp{"RWMutex.TryRLock"})
+	}
+	if m.writer {
+		return false
+	}
+	m.readers++
+	raceAcquire(unsafe.Pointer(m))
+	return true
+}
+
+type rlocker RWMutex
+
+func (r *rlocker) Lock()   { (*RWMutex)(r).RLock() }
+func (r *rlocker) Unlock() { (*RWMutex)(r).RUnlock() }
+
+// RLocker ...
+func (m *RWMutex) RLocker() Locker { return (*rlocker)(m) }
+
+// Go mirrors sync.WaitGroup.Go (Go 1.25).
+func (w *WaitGroup) Go(f func()) {
+	w.Add(1)
+	Go(func() {
+		defer w.Done()
+		f()
+	})
+}
+
+// OnceFunc mirrors sync.OnceFunc.
+func OnceFunc(f func()) func() {
+	var o Once
+	return func() { o.Do(f) }
+}
+
+// OnceValue mirrors sync.OnceValue.
+func OnceValue[T any](f func() T) func() T {
+	var o Once
+	var v T
+	return func() T {
+		o.Do(func() { v = f() })
+		return v
+	}
+}
+
+// OnceValues mirrors sync.OnceValues.
+func OnceValues[T1, T2 any](f func() (T1, T2)) func() (T1, T2) {
+	var o Once
+	var v1 T1
+	var v2 T2
+	return func() (T1, T2) {
+		o.Do(func() { v1, v2 = f() })
+		return v1, v2
+	}
+}
+
+// Cond replaces sync.Cond: waiters queue up in arrival order, Signal releases the oldest, Broadcast all.
+type Cond struct {
+	L       Locker
+	next    int // ticket handed to the next waiter
+	release int // tickets below this value may proceed
+	waiting int
+	tok     byte
+}
+
+// NewCond ...
+func NewCond(l Locker) *Cond { return &Cond{L: l} }
+
+type condWaitOp struct {
+	c      *Cond
+	ticket int
+}
+
+//go:norace
+func (o *condWaitOp) enabled() bool { return o.ticket < o.c.release }
+
+//go:norace
+func (o *condWaitOp) name() string { return fmt.Sprintf("Cond.Wait %p (ticket %d)", o.c, o.ticket) }
+
+// Wait ...
+//
+//go:norace
+func (c *Cond) Wait() {
+	s := active
+	if s == nil {
+		panic("vsyncrt: Cond.Wait outside a controlled execution")
+	}
+	if s.aborting {
+		panic(abortSentinel{})
+	}
+	t := c.next
+	c.next++
+	c.waiting++
+	c.L.Unlock()
+	s.point(&condWaitOp{c, t})
+	raceAcquire(unsafe.Pointer(&c.tok))
+	c.L.Lock()
+}
+
+// Signal ...
+//
+//go:norace
+func (c *Cond) Signal() {
+	if s := active; s != nil {
+		if s.aborting {
+			return
+		}
+		s.point(&plainOp{"Cond.Signal"})
+	}
+	raceReleaseMerge(unsafe.Pointer(&c.tok))
+	if c.waiting > 0 {
+		c.waiting--
+		c.release++
+	}
+}
+
+// Broadcast ...
+//
+//go:norace
+func (c *Cond) Broadcast() {
+	if s := active; s != nil {
+		if s.aborting {
+			return
+		}
+		s.point(&plainOp{"Cond.Broadcast"})
+	}
+	raceReleaseMerge(unsafe.Pointer(&c.tok))
+	c.release += c.waiting
+	c.waiting = 0
+}
+
+// Map replaces sync.Map: a small insertion-ordered association list (no runtime map, whose internals carry race hooks the
+// scheduler's hand-offs would trip). Every operation is a scheduling point and synchronises like the real one.
+type Map struct {
+	keys [512]any
+	vals [512]any
+	n    int
+	tok  byte
+}
+
+//go:norace
+func (m *Map) op(name string) {
+	if s := active; s != nil && !s.aborting {
+		s.point(&plainOp{name})
+	}
+	raceAcquire(unsafe.Pointer(&m.tok))
+	raceReleaseMerge(unsafe.Pointer(&m.tok))
+}
+
+//go:norace
+func (m *Map) find(k any) int {
+	for i := 0; i < m.n; i++ {
+		if m.keys[i] == k {
+			return i
+		}
+	}
+	return -1
+}
+
+//go:norace
+func (m *Map) removeAt(i int) {
+	for j := i; j+1 < m.n; j++ {
+		m.keys[j], m.vals[j] = m.keys[j+1], m.vals[j+1]
+	}
+	m.n--
+	m.keys[m.n], m.vals[m.n] = nil, nil
+}
+
+// Load ...
+//
+//go:norace
+func (m *Map) Load(k any) (any, bool) {
+	m.op("Map.Load")
+	if i := m.find(k); i >= 0 {
+		return m.vals[i], true
+	}
+	return nil, false
+}
+
+// Store ...
+//
+//go:norace
+func (m *Map) Store(k, v any) { m.Swap(k, v) }
+
+// Swap ...
+//
+//go:norace
+func (m *Map) Swap(k, v any) (any, bool) {
+	m.op("Map.Store")
+	if i := m.find(k); i >= 0 {
+		old := m.vals[i]
+		m.vals[i] = v
+		return old, true
+	}
+	if m.n == len(m.keys) {
+		panic("vsyncrt: Map is full")
+	}
+	m.keys[m.n], m.vals[m.n] = k, v
+	m.n++
+	return nil, false
+}
+
+// LoadOrStore ...
+//
+//go:norace
+func (m *Map) LoadOrStore(k, v any) (any, bool) {
+	m.op("Map.LoadOrStore")
+	if i := m.find(k); i >= 0 {
+		return m.vals[i], true
+	}
+	if m.n == len(m.keys) {
+		panic("vsyncrt: Map is full")
+	}
+	m.keys[m.n], m.vals[m.n] = k, v
+	m.n++
+	return v, false
+}
+
+// LoadAndDelete ...
+//
+//go:norace
+func (m *Map) LoadAndDelete(k any) (any, bool) {
+	m.op("Map.LoadAndDelete")
+	if i := m.find(k); i >= 0 {
+		v := m.vals[i]
+		m.removeAt(i)
+		return v, true
+	}
+	return nil, false
+}
+
+// Delete ...
+//
+//go:norace
+func (m *Map) Delete(k any) { m.LoadAndDelete(k) }
+
+// CompareAndSwap ...
+//
+//go:norace
+func (m *Map) CompareAndSwap(k, old, new any) bool {
+	m.op("Map.CompareAndSwap")
+	if i := m.find(k); i >= 0 && m.vals[i] == old {
+		m.vals[i] = new
+		return true
+	}
+	return false
+}
+
+// CompareAndDelete ...
+//
+//go:norace
+func (m *Map) CompareAndDelete(k, old any) bool {
+	m.op("Map.CompareAndDelete")
+	if i := m.find(k); i >= 0 && m.vals[i] == old {
+		m.removeAt(i)
+		return true
+	}
+	return false
+}
+
+// Range visits a snapshot of the entries in insertion order.
+//
+//go:norace
+func (m *Map) Range(f func(k, v any) bool) {
+	m.op("Map.Range")
+	var ks, vs [512]any
+	n := m.n
+	for i := 0; i < n; i++ {
+		ks[i], vs[i] = m.keys[i], m.vals[i]
+	}
+	for i := 0; i < n; i++ {
+		if !f(ks[i], vs[i]) {
+			return
+		}
+	}
+}
+
+// Clear ...
+//
+//go:norace
+func (m *Map) Clear() {
+	m.op("Map.Clear")
+	for i := 0; i < m.n; i++ {
+		m.keys[i], m.vals[i] = nil, nil
+	}
+	m.n = 0
+}
